@@ -151,6 +151,11 @@ func prepareModules() error {
 			// wait for reports
 			rep = <-reports
 			if rep.err != nil {
+				// Do not return while other prep functions are still running:
+				// wait for the reports of everything that was launched.
+				for reportCnt++; reportCnt < execCnt; reportCnt++ {
+					<-reports
+				}
 				if errors.Is(rep.err, ErrCleanExit) {
 					return rep.err
 				}
@@ -204,6 +209,13 @@ func startModules() error {
 			rep = <-reports
 			if rep.err != nil {
 				rep.module.NewErrorMessage("start module", rep.err).Report()
+				// Do not return while other start functions are still running:
+				// wait for the reports of everything that was launched. Otherwise
+				// these modules come online after the caller (and a following
+				// Shutdown) believe that nothing is running anymore.
+				for reportCnt++; reportCnt < execCnt; reportCnt++ {
+					<-reports
+				}
 				verifEvent("ev:startPassEnd")
 				return fmt.Errorf("modules: could not start module %s: %w", rep.module.Name, rep.err)
 			}
